@@ -142,6 +142,8 @@ def reader_rule(ctx, rep, half, name, b, expected_reads, helper_names, allow_sec
             rep.check(good, "reader", fn, "read%d-cipher-state" % k, "at the second read the cipher is exactly as after attempt_decrypt_server_header(first 4 bytes)", "cipher state at read %d is not exactly the state after the 4-byte attempt: %s" % (k, show(st, maxdepth=3)), body.loc(bb))
         # (ii) A10
         arms = try_arms(se, bb)
+        if arms is None and len(reads) == 1 and mapped_helper(ctx, rep, se, fn, half, helper_names, bb, bl):
+            return
         if arms is None:
             rep.violation("reader", fn, "read%d-error-propagated" % k, "the io::Result of read_exact is not propagated with `?`", body.loc(bb))
             continue
@@ -181,6 +183,60 @@ def reader_rule(ctx, rep, half, name, b, expected_reads, helper_names, allow_sec
     rep.check(good, "reader", fn, "helper-gets-read-bytes", desc, "the typed helper does not receive exactly the buffer filled by read_exact: " + desc, body.loc())
 
 
+def mapped_helper(ctx, rep, se, fn, half, helper_names, read_bb, buf_loc):
+    """combinator spelling of the reader: `reader.read_exact(&mut buf).map(|()| self.helper(buf))`.
+    Result::map leaves Err(e) as it is and runs the closure only on Ok; decided here: the
+    function returns that map, nothing else is called, and the closure is exactly the typed
+    helper on (self, the buffer just read)."""
+    body = se.body
+    read = se.term_info[read_bb]
+    m = strip(se.ret)
+    if not (util.is_call(m, "std::result::Result::<T, E>::map") and strip(m[2][0]) == strip(read["term"])):
+        return False
+    mi = se.term_info.get(m[3][1], {})
+    cl = mi["args"][1] if mi.get("k") == "call" and len(mi.get("args", ())) == 2 else ("?",)
+    if not (cl[0] == "agg" and cl[1] == "closure"):
+        return False
+    names = sorted(i["name"] for i in se.term_info.values() if i.get("k") == "call")
+    good = names == sorted(["std::io::Read::read_exact", "std::result::Result::<T, E>::map"])
+    rep.check(good, "reader", fn, "read0-error-propagated", "the function returns read_exact(..).map(..): Err(e) is passed on unchanged, nothing else runs", "besides read_exact(..).map(..) the function calls %s" % names, body.loc(read_bb))
+    caps = cl[4]
+    cse = ctx.flat.run(cl[2])
+    desc = "closure not analysable"
+    good = False
+    if cse is not None and not cfg.back_edges(cse.body):
+        calls = [i for _, i in sorted(cse.term_info.items()) if i.get("k") == "call"]
+        desc = "closure calls %s" % [i["name"] for i in calls]
+        map_bb = m[3][1]
+        st = se.in_state.get(map_bb, {})
+
+        def resolve(t):
+            def f(x):
+                if x[0] == "field" and x[1] == ("param", 1) and isinstance(x[2], int) and x[2] < len(caps):
+                    return caps[x[2]]
+                return None
+            t = util.map_term(t, f)
+
+            def g(x):
+                if x[0] == "deref" and x[1][0] in ("ref", "refv"):
+                    return util.map_term(x[1][1], g)
+                return None
+            return util.map_term(t, g)
+
+        if len(calls) == 1 and calls[0]["name"].split("::")[-1] in helper_names and calls[0]["name"].startswith(half + "::") and strip(cse.ret) == strip(calls[0]["term"]):
+            la = calls[0]["locargs"]
+            recv = resolve(la[0][1]) if la[0][0] == "ref" else None
+            bufv = resolve(la[1])
+            recv_ok = recv is not None and recv[0] == "deref" and recv[1][0] == "local" and se.read(st, recv[1]) == ("param", 1)
+            buf_ok = bufv == buf_loc
+            good = recv_ok and buf_ok
+            desc = "%s(self, bytes just read) inside the mapped closure" % calls[0]["name"].split("::")[-1]
+            if not good:
+                desc += " [receiver %s, buffer %s vs %s]" % (show(recv) if recv else None, bufv, buf_loc)
+    rep.check(good, "reader", fn, "helper-gets-read-bytes", desc, "the typed helper does not receive exactly the buffer filled by read_exact: " + desc, body.loc())
+    return True
+
+
 def writer_rule(ctx, rep, half, name, b, helper):
     fn = b.path
     se = ctx.wrap.run(fn)
@@ -201,7 +257,9 @@ def writer_rule(ctx, rep, half, name, b, helper):
     n_helper = sum(1 for i in se.term_info.values() if i.get("k") == "call" and i["name"] == hname)
     rep.check(n_helper == 1, "writer", fn, "helper-once", "the header is encrypted exactly once", "typed helper called %d times" % n_helper, body.loc())
     arms = try_arms(se, bb)
-    if arms is None:
+    if arms is None and strip(se.ret) == strip(info["term"]):
+        rep.ok("writer", fn, "error-propagated", "the io::Result of write_all is the function's result", body.loc(bb))
+    elif arms is None:
         rep.violation("writer", fn, "error-propagated", "the io::Result of write_all is not propagated (a failing writer would be swallowed)", body.loc(bb))
     else:
         # Ok(()) only on the continue arm
@@ -215,11 +273,11 @@ def layout_env(data_term):
 
 
 def be(n, x, k):
-    return ("idx", ("tobe", n, x), I(k))
+    return ("byte", x, arith.BYTES[n] - 1 - k)
 
 
 def le(n, x, k):
-    return ("idx", ("tole", n, x), I(k))
+    return ("byte", x, k)
 
 
 def encoder_rule(ctx, rep, half, raw, name, b, size_ty, op_ty):
@@ -231,7 +289,7 @@ def encoder_rule(ctx, rep, half, raw, name, b, size_ty, op_ty):
     nop = {"u16": 2, "u32": 4}[op_ty]
     want = ("arr", tuple([be("u16", ("param", 2), 0), be("u16", ("param", 2), 1)] + [le(op_ty, ("param", 3), k) for k in range(nop)]))
     if r[0] == "after" and util.is_call(r[1], half + "::" + raw) and r[2] == 1 and r[1][2][0] == ("mutref", 0):
-        arr = arith.norm(r[3])
+        arr = arith.byte_canon(arith.norm(r[3]))
         good = arr == want
         desc = arith.show(arr) if arr[0] != "arr" else "[%s]" % ", ".join(arith.show(x) for x in arr[1])
     rep.check(good, "encoder", fn, "wire-layout", "raw(%s) over the whole array, returned" % desc, "header is not raw-encrypted [BE16(size), LE(opcode)] over the whole array: " + desc, se.body.loc())
@@ -245,10 +303,11 @@ def decoder_expect(kind):
     def d(k):
         return ("idx", D, I(k))
 
+    # byte vectors, least significant first
     if kind == "server":
-        return {"size": ("frombe", "u16", ("arr", (d(0), d(1)))), "opcode": ("fromle", "u16", ("arr", (d(2), d(3))))}
+        return {"size": (d(1), d(0)), "opcode": (d(2), d(3))}
     if kind == "client":
-        return {"size": ("frombe", "u16", ("arr", (d(0), d(1)))), "opcode": ("fromle", "u32", ("arr", (d(2), d(3), d(4), d(5))))}
+        return {"size": (d(1), d(0)), "opcode": (d(2), d(3), d(4), d(5))}
     raise KeyError(kind)
 
 
@@ -267,10 +326,10 @@ def decoder_rule(ctx, rep, owner, raw, name, b, kind, header_adt):
                 data = t
         if data is not None:
             env = {data: "D"}
-            got = {f: arith.norm(v, env) for f, v in zip(fields, r[4])}
+            got = {f: arith.bv(v, env) for f, v in zip(fields, r[4])}
             want = decoder_expect(kind)
-            good = got == want and util.is_call(data[1]) and data[1][2][0] == ("mutref", 0)
-            desc = ", ".join("%s=%s" % (k, arith.show(v)) for k, v in got.items())
+            good = all(got.get(f) is not None and got[f] == want[f] for f in want) and util.is_call(data[1]) and data[1][2][0] == ("mutref", 0)
+            desc = ", ".join("%s=%s" % (k, "[%s] (low byte first)" % ", ".join(arith.show(x) for x in v) if v is not None else arith.show(arith.norm(dict(zip(fields, r[4]))[k], env))) for k, v in got.items())
     rep.check(good, "decoder", fn, "wire-layout", desc, "header is not parsed as BE16 size / LE opcode from the raw-decrypted array: " + desc, se.body.loc())
     n_raw = sum(1 for i in se.term_info.values() if i.get("k") == "call" and i["name"].endswith("::" + raw))
     rep.check(n_raw == 1, "decoder", fn, "raw-once", "raw operation applied exactly once to the whole array", "raw operation applied %d times" % n_raw, se.body.loc())
